@@ -27,6 +27,12 @@ TITLES = [
     ("C20", r"import-fails@.*null", "NULL is exported as the text NULL, which cannot be imported into a non-string column", "src/executor/copy_to_file.rs (get_to_string); src/array/data_chunk_builder.rs push_str_row"),
     ("C20", r"rows-differ@str", "string columns do not round-trip: NULL is exported as the text 'NULL' (imported as that string), the empty string is imported as NULL", "src/executor/copy_to_file.rs; src/array/data_chunk_builder.rs push_str_row"),
     ("C20", r"rows-differ@nonstr", "non-string columns do not round-trip through CSV (value formatting vs parsing, e.g. extreme doubles)", "src/executor/copy_to_file.rs; src/types"),
+    ("C14", r"wrong-value_case", "CASE/IF takes the validity of its result from the validity of the condition instead of the selected branch: a NULL branch yields 0, a non-NULL branch yields NULL", "src/array/ops.rs select_op"),
+    ("C14", r"wrong-value_cast", "CAST(int AS BOOLEAN) leaves the raw value under NULL slots: WHERE/AND/OR read it as TRUE", "src/array/ops.rs cast (no clear_null)"),
+    ("C14", r"evaluation-fails", "expressions that panic inside the evaluator: x % 0, (p AND q) AND .., NOT (NOT p) forms produced by the rewrite rules", "src/array/ops.rs rem; src/planner/rules/expr.rs"),
+    ("C14", r"folded-differs", "constant folding is not three-valued: NULL AND FALSE / NULL OR TRUE fold to NULL, x % 0 panics in the folder", "src/planner/rules/expr.rs eval_constant"),
+    ("C14", r"overflow-not-an-error", "integer overflow (+, -, *, unary -, MIN / -1, SUM) and % by zero panic inside the operator (debug) / wrap (release) instead of returning an error value", "src/array/ops.rs arithmetic kernels"),
+    ("C14", r"wrong-value", "vectorised evaluation differs from scalar three-valued semantics", "src/array/ops.rs"),
     ("C16", r"lossy-or-invalid-conversion-accepted", "INSERT converts with loss instead of failing: a fractional literal is truncated into an integer column (1.5 -> 1)", "src/array/ops.rs (cast), src/executor/insert.rs"),
     ("C17", r"optimizer-panics", "the optimizer panics (egg extractor unwrap) on NOT IN over a filtered subquery and on a non-constant LIMIT", "src/planner/optimizer.rs / egg extract; src/planner/rules/plan.rs subquery_rules"),
     ("C17", r"malformed-plan:unresolved-subquery", "scalar / nested IN subqueries survive optimisation as sub-plans inside expressions (no executor for them)", "src/planner/rules/plan.rs subquery_rules"),
